@@ -1080,6 +1080,8 @@ where
         for worker_props in state.pool.values() {
             worker_props.actor.stop(None);
         }
+        #[cfg(ractor_verif)]
+        state.verif_step(myself.get_id(), ("post_stop", 0, 0, 0, String::new()));
         // now wait on the handles until the workers finish
         for worker_props in state.pool.values_mut() {
             if let Some(handle) = worker_props.get_join_handle() {
